@@ -4,6 +4,7 @@
 package leveldb
 
 import (
+	"sync"
 	"sync/atomic"
 	"time"
 
@@ -37,6 +38,11 @@ type VerifEdit struct {
 	HasSeq     bool
 	SeqNum     uint64
 	Trivial    bool
+	// HasMinSeq: the record comes from a table compaction that read MinSeq (oldest sequence number it must
+	// preserve) with SourceLevel as its source level.
+	HasMinSeq   bool
+	MinSeq      uint64
+	SourceLevel int
 	Version    []VerifTable // the newly installed version
 	// Stor is the storage the session was opened on (identifies the DB a process-wide hook is called for).
 	Stor storage.Storage
@@ -78,6 +84,11 @@ func verifCommitted(s *session, r *sessionRecord, nv *version, trivial bool) {
 	for _, t := range r.deletedTables {
 		e.Deleted = append(e.Deleted, VerifTable{Level: t.level, Num: t.num})
 	}
+	if x, ok := verifMinSeqs.Load(s); ok && len(r.deletedTables) > 0 {
+		ms := x.([2]uint64)
+		e.HasMinSeq, e.MinSeq, e.SourceLevel = true, ms[0], int(ms[1])
+		verifMinSeqs.Delete(s)
+	}
 	if r.has(recJournalNum) {
 		e.HasJournal, e.JournalNum = true, r.journalNum
 	}
@@ -85,6 +96,13 @@ func verifCommitted(s *session, r *sessionRecord, nv *version, trivial bool) {
 		e.HasSeq, e.SeqNum = true, r.seqNum
 	}
 	(*p)(e)
+}
+
+var verifMinSeqs sync.Map // *session -> [2]uint64{minSeq, level}
+
+func verifNoteMinSeq(s *session, minSeq uint64, level int) {
+	verifMinSeqs.Store(s, [2]uint64{minSeq, uint64(level)})
+	verifEvent(VerifEvMinSeq, minSeq, uint64(level))
 }
 
 var verifBusy int32
